@@ -26,6 +26,40 @@ pub(crate) fn try_constr_name(ty: &tast::Ty) -> Option<String> {
     }
 }
 
+/// Does `ty` mention the type parameter `param`?
+pub(crate) fn ty_mentions_param(ty: &tast::Ty, param: &str) -> bool {
+    match ty {
+        tast::Ty::TParam { name } => name == param,
+        tast::Ty::TVar(_)
+        | tast::Ty::TUnit
+        | tast::Ty::TBool
+        | tast::Ty::TInt8
+        | tast::Ty::TInt16
+        | tast::Ty::TInt32
+        | tast::Ty::TInt64
+        | tast::Ty::TUint8
+        | tast::Ty::TUint16
+        | tast::Ty::TUint32
+        | tast::Ty::TUint64
+        | tast::Ty::TFloat32
+        | tast::Ty::TFloat64
+        | tast::Ty::TString
+        | tast::Ty::TEnum { .. }
+        | tast::Ty::TStruct { .. }
+        | tast::Ty::TDyn { .. } => false,
+        tast::Ty::TTuple { typs } => typs.iter().any(|ty| ty_mentions_param(ty, param)),
+        tast::Ty::TApp { ty, args } => {
+            ty_mentions_param(ty, param) || args.iter().any(|ty| ty_mentions_param(ty, param))
+        }
+        tast::Ty::TArray { elem, .. } | tast::Ty::TVec { elem } | tast::Ty::TRef { elem } => {
+            ty_mentions_param(elem, param)
+        }
+        tast::Ty::TFunc { params, ret_ty } => {
+            params.iter().any(|ty| ty_mentions_param(ty, param)) || ty_mentions_param(ret_ty, param)
+        }
+    }
+}
+
 pub(crate) fn validate_ty(
     genv: &PackageTypeEnv,
     diagnostics: &mut Diagnostics,
